@@ -597,7 +597,7 @@ def cal : Calc where
   maxYear := 999
   avg10 := 3652
   daysAtYear1 := -45941
-  domLo := 1
+  domLo := 0            -- year 0 = min_year - 1 is available to internal callers (week-year rules), as in every calendar
   domHi := 1000
   domErr := .valueError
   start := start
